@@ -11,7 +11,6 @@ Every entry is   reg(id, target, verdict, rule, sites, apply, stage)
             ProjectData.validate / ParameterSet / Project load / ProgramSet.validate following the library's assert/raise Exception convention)
 The harness (props/c18.py) proves that the mutated workbook differs from its base.
 """
-import copy
 
 from . import xlsx_writer as xw
 
